@@ -7,7 +7,8 @@
    [quiescent s]: no thread can move (the consumer is parked on an empty queue, everything has
    arrived and been registered) — the model's reading of "no further event". *)
 From Coq Require Import List NArith Bool Arith.
-From Wesh Require Import Model.C08_Pipeline Proofs.C08_Pipeline.
+From Coq Require Import String.
+From Wesh Require Import Model.C08_Pipeline Proofs.C08_Pipeline Gen.Pipeline GenFacts.PipelineFacts.
 Import ListNotations.
 Open Scope N_scope.
 
@@ -64,6 +65,20 @@ Theorem C08_pinned_head_only_refuted :
   end.
 Proof. exact pinned_head_only_strands. Qed.
 
+(* the shape the LTS follows is the shape of the CURRENT store_message.go (generated facts): whole-body
+   critical section with the park inside it, flush of the whole queue under the same mutex without an
+   early return, the loop's three outcomes, and the only writers of the chain-key flag *)
+Theorem C08_source_skeleton :
+  (pipe_get_or_create = ["lock m.muDeviceCaches"; "defer unlock m.muDeviceCaches"; "call IsChainKeyKnownForDevice"; "call Add"] /\
+   pipe_register = ["lock m.muDeviceCaches"; "call UnmarshalEd25519PublicKey"; "call IsChainKeyKnownForDevice";
+                    "call processDeviceMessagesInQueue"; "unlock m.muDeviceCaches"] /\
+   pipe_loop = ["call WaitForItem"; "call getOrCreateDeviceCache"; "call Emit"; "call processMessage"; "call Add"; "call Emit";
+                "call processDeviceMessagesInQueue"; "call Emit"] /\
+   chain_key_flag_writers = ["ProcessMessageQueueForDevicePK"; "getOrCreateDeviceCache"] /\
+   pipe_returns = (2, 0)%nat)%string.
+Proof. exact pipeline_shape. Qed.
+
+Print Assumptions C08_source_skeleton.
 Print Assumptions C08_every_decryptable_delivered.
 Print Assumptions C08_delivered_once_per_arrival.
 Print Assumptions C08_delivered_sound.
